@@ -3139,3 +3139,5 @@ def check(run, prog):
     rule_dictkeys(run, prog)
     from .c05_regex import rule_regex_ambiguity
     rule_regex_ambiguity(run, prog)          # R-5.10
+    from .c05_scope_scan import rule_scope_scans
+    rule_scope_scans(run, prog)              # R-5.11
